@@ -314,6 +314,20 @@ func c15SequenceOnce(c *mon.Ctx, seq []int, r *mon.Rand, enumerated bool) {
 				spec.sockDead, stale.sockDead = true, true
 			}
 		}
+		if !spec.open && !spec.sockDead {
+			// the sequence closed the transport: a Flush now fails and - like every
+			// Flush - leaves the buffer empty. Should Open bring the transport back,
+			// the next message goes out complete and alone.
+			tr.Flush()
+			if err := tr.Open(); err == nil && tr.IsOpen() {
+				marker := []byte(fmt.Sprintf("after-reopen-%d", counter))
+				if _, err := tr.Write(marker); err == nil && tr.Flush() == nil {
+					spec.out = append(spec.out, marker)
+					stale.out = append(stale.out, marker)
+				}
+				c.Class("transports-opened-again-after-close", 1)
+			}
+		}
 	})
 	if panicked {
 		return
